@@ -110,7 +110,7 @@ pub fn eval(case: &Case, must: bool) -> Verdict {
         // outcomes that need the SeqCst fences ordered against the execution order (finding F12)
         let a_op = br.a_op.as_ref().map(|r| &r.outcomes).unwrap_or(&br.a.outcomes);
         if a_op.len() != br.a.outcomes.len() {
-            v.label("class:sc_fence_order");
+            v.label("class:operational_order");
         }
         let missing_all: Vec<&Outcome> = br.a.outcomes.iter().filter(|o| !l.contains(*o)).collect();
         let missing: Vec<&Outcome> = a_op.iter().filter(|o| !l.contains(*o)).collect();
@@ -118,10 +118,12 @@ pub fn eval(case: &Case, must: bool) -> Verdict {
             if let Some(m) = missing_all.first() {
                 let w = br.a.witness.get(*m).cloned().unwrap_or_default();
                 v.detail["missing"] = serde_json::json!(missing_all.iter().map(|o| fmt_outcome(o)).collect::<Vec<_>>());
+                let cas = known::cas_other_writer(p);
                 return v.fail(
-                    "missing_outcome_fence_order",
+                    if cas { "missing_outcome_cas_order" } else { "missing_outcome_fence_order" },
                     format!(
-                        "RC11-consistent outcome never explored, and every execution producing it orders two SeqCst fences against po ∪ rf: {}  (witness: {})",
+                        "RC11-consistent outcome never explored, and every execution producing it needs {} against the execution order (po ∪ rf): {}  (witness: {})",
+                        if cas { "a failing compare_exchange to read a store that is not the newest one, or SeqCst events ordered" } else { "SeqCst events ordered" },
                         fmt_outcome(m), w
                     ),
                 );
